@@ -124,6 +124,20 @@ def run_case(case: Dict) -> CaseResult:
                 if nd is not None and nd.operating_state.name != "ON":
                     res.violate(f"mask-overpermits:target-node-not-on:{act}",
                                 f"op#{i}: entry {k} {act} {opts} is unmasked although node {tgt} is {nd.operating_state.name}")
+            # "its target does not exist" judged from the raw inventory, not from validator objects: an unmasked entry
+            # whose service / application / interface / folder / file is not there (not installed, deleted) is reported.
+            # Creating, installing, restoring and removing address something that need not exist and are left out.
+            fs_gated = ("node-file-scan", "node-file-checkhash", "node-file-repair", "node-file-corrupt", "node-file-delete",
+                        "node-folder-scan", "node-folder-checkhash", "node-folder-repair")
+            # (file-system actions that hand the names to their handler as parameters - access, restore, create - reach the
+            # handler whatever the names are, so by the property's wording they are available)
+            if m and act != "do-nothing" and not act.endswith(("-create", "-install", "-restore", "-remove")) and \
+                    ("folder_name" not in opts or act in fs_gated):
+                from .c05 import component_exists as _exists
+
+                if not _exists(g.simulation.network, act, opts):
+                    res.violate(f"mask-overpermits:target-does-not-exist:{act}",
+                                f"op#{i}: entry {k} {act} {opts} is unmasked although a component it names does not exist")
             if not m and t_why == "keymiss" and str(t_detail) in {str(v) for v in opts.values()}:
                 # masked out because a NAME taken from the action's parameters is not routed: legitimate only if the
                 # component really does not exist (raw inventory of the simulation, as in C05)
